@@ -59,11 +59,13 @@ def items(tier):
                 for kinds in (["cmd"] * 5, ["combine", "exp", "exp", "exp", "exp"]):
                     p = [pars[i] and kinds[i] != "combine" for i in range(5)]
                     out.append({"case": {"g": g, "kinds": kinds, "pars": p, "jobs": jobs, "fails": {}}, "bound": 0})
+    for case in rungrid.conformance_cases(tier, kindsets=(["cmd"] * 3, ["exp", "cmd", "exp"])):
+        out.append({"case": case, "bound": 0, "conform": True})
     return out
 
 
 def run_item(item, tier):
-    return rungrid.explore_case(item["case"], item["bound"], [mon], max_exec=200000)
+    return rungrid.explore_case(item["case"], item["bound"], [mon], max_exec=200000, conform=bool(item.get("conform")))
 
 
 def replay(artefact):
